@@ -191,6 +191,17 @@ fn handle_specs(spec: &Spec) -> Vec<&Spec> {
 
 /// Build the shared tree: leaves wrapped in SchedSource; returns handles.
 fn build_shared(spec: &Spec, sched_children: bool) -> Vec<BoxSource> {
+  build_shared_with_peekers(spec, sched_children, false).0
+}
+
+fn build_shared_with_peekers(
+  spec: &Spec,
+  sched_children: bool,
+  want_peekers: bool,
+) -> (Vec<BoxSource>, Vec<crate::spec::Peeker>) {
+  if want_peekers {
+    *crate::spec::PEEKERS.lock().unwrap() = Some(Vec::new());
+  }
   let handles: Mutex<Vec<(usize, BoxSource)>> = Mutex::new(Vec::new());
   let order: Vec<*const Spec> = handle_specs(spec).iter().map(|s| *s as *const Spec).collect();
   let root = build_with(spec, &|s, b| {
@@ -212,7 +223,61 @@ fn build_shared(spec: &Spec, sched_children: bool) -> Vec<BoxSource> {
     hs.push((0, root));
   }
   hs.sort_by_key(|(i, _)| *i);
-  hs.into_iter().map(|(_, b)| b).collect()
+  let peekers = if want_peekers {
+    crate::spec::PEEKERS.lock().unwrap().take().unwrap_or_default()
+  } else {
+    Vec::new()
+  };
+  (hs.into_iter().map(|(_, b)| b).collect(), peekers)
+}
+
+/// One peek of every cache slot; entries: (peeker, key, value identity).
+type PeekLog = Mutex<Vec<(usize, usize, Option<(Option<SourceMap>, usize)>)>>;
+
+fn peek_all(peekers: &[crate::spec::Peeker], log: &PeekLog) {
+  let keys = [
+    rspack_sources::verif::map_options(true, false),
+    rspack_sources::verif::map_options(false, false),
+    rspack_sources::verif::map_options(true, true),
+    rspack_sources::verif::map_options(false, true),
+  ];
+  let mut l = log.lock().unwrap();
+  for (pi, p) in peekers.iter().enumerate() {
+    for (ki, k) in keys.iter().enumerate() {
+      match p(k) {
+        rspack_sources::VerifPeek::Locked => {}
+        rspack_sources::VerifPeek::Absent => l.push((pi, ki, None)),
+        // the clone of the cached map keeps its storage alive, so an equal
+        // address later on really is the same value
+        rspack_sources::VerifPeek::Present(m, addr) => l.push((pi, ki, Some((m, addr)))),
+      }
+    }
+  }
+}
+
+/// Per (cache, key) the peeks must read None* Some(x)* with a single x.
+fn check_peek_log(log: &PeekLog, obs: &mut Obs, ctx: &dyn Fn() -> String) {
+  let l = log.lock().unwrap();
+  let mut state: std::collections::HashMap<(usize, usize), (Option<SourceMap>, usize)> = std::collections::HashMap::new();
+  obs.count("cache_slot_peeks", l.len() as u64);
+  for (pi, ki, v) in l.iter() {
+    match (state.get(&(*pi, *ki)), v) {
+      (Some(_), None) => {
+        obs.fail("cache_entry_removed", format!("cache {pi} key {ki}: an entry that had been observed is gone; {}", ctx()));
+        return;
+      }
+      (Some((m0, a0)), Some((m, a))) => {
+        if a0 != a || m0 != m {
+          obs.fail("cache_entry_replaced", format!("cache {pi} key {ki}: the cached map was replaced (storage {a0:#x} -> {a:#x}, mappings {:?} -> {:?}); {}", m0.as_ref().map(|m| m.mappings().to_string()), m.as_ref().map(|m| m.mappings().to_string()), ctx()));
+          return;
+        }
+      }
+      (None, Some((m, a))) => {
+        state.insert((*pi, *ki), (m.clone(), *a));
+      }
+      (None, None) => {}
+    }
+  }
 }
 
 #[derive(Clone, Debug, PartialEq)]
@@ -302,12 +367,17 @@ fn check(case: &Value, obs: &mut Obs) {
       }
     };
     // fresh shared objects per schedule
-    let hs = Arc::new(build_shared(&spec, true));
+    let peeking = std::env::var("RSV_NO_PEEK").is_err();
+    let (hs, peekers) = build_shared_with_peekers(&spec, true, peeking);
+    let hs = Arc::new(hs);
+    let peekers = Arc::new(peekers);
+    let peek_log: Arc<PeekLog> = Arc::new(Mutex::new(Vec::new()));
     let ps = Arc::new(build_shared(&spec, true));
     for c in &warm {
       let t = c.target.min(hs.len() - 1);
       let _ = perform(&hs[t], c.op, &ps[t]);
     }
+    peek_all(&peekers, &peek_log);
     let (w0, r0) = rspack_sources::verif::cache_write_counts();
     let bodies: Vec<Box<dyn FnOnce() -> Vec<Answer> + Send>> = threads
       .iter()
@@ -315,12 +385,18 @@ fn check(case: &Value, obs: &mut Obs) {
         let calls = calls.clone();
         let hs = hs.clone();
         let ps = ps.clone();
+        let peekers = peekers.clone();
+        let peek_log = peek_log.clone();
         Box::new(move || {
           calls
             .iter()
             .map(|c| {
               let t = c.target.min(hs.len() - 1);
-              perform(&hs[t], c.op, &ps[t])
+              let a = perform(&hs[t], c.op, &ps[t]);
+              // peeks happen between calls of a managed thread, i.e. in the
+              // real order of the schedule
+              peek_all(&peekers, &peek_log);
+              a
             })
             .collect()
         }) as Box<dyn FnOnce() -> Vec<Answer> + Send>
@@ -376,6 +452,8 @@ fn check(case: &Value, obs: &mut Obs) {
         if r1 > r0 {
           obs.fail("cached_map_replaced", format!("{} cache store(s) replaced an already cached map; {}", r1 - r0, sched_desc()));
         }
+        peek_all(&peekers, &peek_log);
+        check_peek_log(&peek_log, obs, &sched_desc);
         if obs.failed() {
           // keep the schedule for replay
           obs.notes.push(format!("failing schedule prefix: {:?}", o.choices.iter().map(|c| c.0).collect::<Vec<_>>()));
@@ -522,7 +600,12 @@ fn check_stress(case: &Value, obs: &mut Obs) {
     rspack_sources::verif::set_scheduler(None);
   }
   for round in 0..rounds {
-    let hs = Arc::new(build_shared(&spec, true));
+    let peeking = std::env::var("RSV_NO_PEEK").is_err();
+    let (hs, peekers) = build_shared_with_peekers(&spec, true, peeking);
+    let hs = Arc::new(hs);
+    let peekers = Arc::new(peekers);
+    // one log per thread (peeks of different threads are not ordered)
+    let logs: Vec<Arc<PeekLog>> = (0..threads.len() + 1).map(|_| Arc::new(Mutex::new(Vec::new()))).collect();
     let ps = Arc::new(build_shared(&spec, true));
     for c in &warm {
       let t = c.target.min(hs.len() - 1);
@@ -532,18 +615,23 @@ fn check_stress(case: &Value, obs: &mut Obs) {
     let barrier = Arc::new(std::sync::Barrier::new(threads.len()));
     let joins: Vec<_> = threads
       .iter()
-      .map(|calls| {
+      .enumerate()
+      .map(|(ti, calls)| {
         let calls = calls.clone();
         let hs = hs.clone();
         let ps = ps.clone();
         let barrier = barrier.clone();
+        let peekers = peekers.clone();
+        let log = logs[ti].clone();
         std::thread::spawn(move || {
           barrier.wait();
           calls
             .iter()
             .map(|c| {
               let t = c.target.min(hs.len() - 1);
-              perform(&hs[t], c.op, &ps[t])
+              let a = perform(&hs[t], c.op, &ps[t]);
+              peek_all(&peekers, &log);
+              a
             })
             .collect::<Vec<Answer>>()
         })
@@ -572,6 +660,18 @@ fn check_stress(case: &Value, obs: &mut Obs) {
     let (_, r1) = rspack_sources::verif::cache_write_counts();
     if r1 > r0 {
       obs.fail("cached_map_replaced", format!("round {round}: {} cache store(s) replaced an already cached map", r1 - r0));
+    }
+    // every thread's own view must be None* Some(x)*, and after the join all
+    // views must end in the final value
+    let last = logs.last().unwrap().clone();
+    peek_all(&peekers, &last);
+    for (ti, log) in logs.iter().enumerate() {
+      // append the final state to each thread's history
+      if ti + 1 < logs.len() {
+        let fin = last.lock().unwrap().clone();
+        log.lock().unwrap().extend(fin);
+      }
+      check_peek_log(log, obs, &|| format!("round {round}, view of thread {ti}"));
     }
     obs.count("stress_rounds", 1);
     obs.count("threads_run", threads.len() as u64);
